@@ -44,6 +44,15 @@ TRUSTED_BASE = [
     "variables are inputs/outputs) — the same designation builds the Python function the translation is compared with — and, by hand, "
     "what surrounds the fragments: variable initialisation, rule applicability (eval_condition; match_actions and match_resource are "
     "translated and proved equal to the model: C03_translated, C05_translated), exceptions",
+    "for the translated role resolver StaticRoleResolver.__init__ / .expand (C18): harness/pytolean_loops.py (on top of pytolean.py) and the "
+    "new operations of Model/PyLib.lean, validated against CPython on every run (Run/SrcEvalRoles.lean); the trusted readings are: "
+    "`while c: body` is Py.whileFuel — the body iterated on the tuple of the variables it assigns or mutates while c holds, at most `fuel` "
+    "times, none when that budget runs out (that a budget always suffices is a theorem of the obligation, not an assumption); "
+    "xs.pop() / xs.append(e) / s.add(e) on a local bound once to a fresh list/set and never used as a bare value are rebinding of that local "
+    "(value semantics = CPython's reference semantics when nobody else holds the object); a set is the duplicate-free list of its members, "
+    "observed only through `in`, `.add` and `sorted` (nothing that depends on CPython's iteration order); sorted() on str is code-point order "
+    "= Lean's < on String; d.get(k, default) on a dict with a str key; self.graph is the value __init__ stored (values, not references: a caller "
+    "mutating the graph dict during expand is not represented); the equalities speak about a dict[str, list[str]] graph and list[str] | None roles",
 ]
 
 
